@@ -2032,9 +2032,51 @@ def translate_tables(repo):
     except Exception as e:
         report['untranslated']['manager bindings'] = '%s: %s' % (type(e).__name__, str(e)[:300])
         chunks['bindings'] = ['-- UNTRANSLATED manager bindings: %s' % str(e)[:300]]
+
+    # ---- impl TargetScheme for Vec<FormatElement>, compile_size_comp, exact_byte_size
+    def format_list_fn(it):
+        txt = text_of(it.body)
+        pat = (r'let template = self \. iter \( \) \. map \( \| el \| match el \{ '
+               r'FormatElement :: Literal \( s \) => Ok \( (?P<lit>\w+) \( s \) \) , '
+               r'FormatElement :: Field \( f \) => (?P<fld>\w+) \( f \) \. map \( \| s \| s \. to_string \( \) \) , '
+               r'FormatElement :: Special \( v \) => (?P<spc>\w+) \( v \) , \} \) '
+               r'\. collect :: < CResult < Vec < String > > > \( \) \? \. join \( (?P<tsep>"(?:[^"\\]|\\.)*") \) ; '
+               r'let items = self \. iter \( \) \. filter_map \( \| el \| match el \{ '
+               r'FormatElement :: Literal \( s \) => None , '
+               r'FormatElement :: Field \( f \) => (?P<item>\w+) \( f \) \. unwrap_or_else \( \| e \| \{ None \} \) , '
+               r'FormatElement :: Special \( v \) => None , \} \) '
+               r'\. collect :: < Vec < String > > \( \) \. join \( (?P<isep>"(?:[^"\\]|\\.)*") \) ; '
+               r'buffer \. push_str \( & format ! \( (?P<fin>"(?:[^"\\]|\\.)*") \) \) ; Ok \( \( \) \)')
+        m = re.fullmatch(pat, txt)
+        if not m: raise Untranslatable('the format-list generator does not have the shape the model was transcribed from')
+        fn = {'template_escape': 'templateEscape', 'placeholder': 'placeholder', 'literal': 'specialLiteral', 'snippet': 'snippetBody'}
+        for g in ('lit', 'fld', 'spc', 'item'):
+            if m.group(g) not in fn: raise Untranslatable('format-list helper ' + m.group(g))
+        args_named.clear(); args_named['template'] = 'template'; args_named['items'] = 'items'
+        fin = join_pieces(fmt_named(json.loads(m.group('fin')), None), [])
+        def tx(x):
+            v = json.loads(x)
+            return lean_cl(v) if v else '[]'
+        return ('def compileFormat (es : List FormatElement) : Except CompileError Text :=\n'
+                '  formatSkeleton %s %s %s %s (%s) (%s) (fun template items => %s) es'
+                % (fn[m.group('lit')], fn[m.group('fld')], fn[m.group('spc')], fn[m.group('item')], tx(m.group('tsep')), tx(m.group('isep')), fin))
+    emit('compileFormat', 'Vec<FormatElement>::compile', 'scheme/target_scheme.rs', format_list_fn)
+
+    def exact_fn(it):
+        if text_of(it.body) != ('let ( Size :: Byte ( s ) | Size :: Word ( s ) | Size :: Block ( s ) | Size :: KiloByte ( s ) | Size :: MegaByte ( s ) | '
+                                'Size :: GigaByte ( s ) | Size :: TeraByte ( s ) ) = size ; ( * s as u128 ) * ( size . mult ( ) as u128 )'):
+            raise Untranslatable('exact_byte_size changed')
+        return 'def exactByteSize (s : Size) : Nat := s.count * sizeMult s'
+    emit('exactByteSize', 'exact_byte_size', 'scheme/target_scheme.rs', exact_fn)
+
+    def size_comp_fn(it):
+        if text_of(it.body) != 'buffer . push_str ( & format_cmp ! ( comp , size_matching , exact_byte_size ) ) ;':
+            raise Untranslatable('compile_size_comp changed')
+        return 'def compileSizeComp (c : Comparison Size) : Text :=\n  formatCmp2 c sizeMatching (fun s => nat (exactByteSize s))'
+    emit('compileSizeComp', 'compile_size_comp', 'scheme/target_scheme.rs', size_comp_fn)
     # dependencies first, so that every generated definition uses the generated ones below it
     for name in ['schemeEscape', 'isPattern', 'terminatorEscape', 'templateEscape', 'Size.mult', 'TimeSpec.secs', 'FileType.octal', 'permValue', 'formatCmp', 'sizeMatching', 'compilePermCheck',
-                 'specialLiteral', 'placeholder', 'snippetBody', 'hasAction', 'complexFrames', 'compileTest', 'compileAction',
+                 'exactByteSize', 'compileSizeComp', 'specialLiteral', 'placeholder', 'snippetBody', 'compileFormat', 'hasAction', 'complexFrames', 'compileTest', 'compileAction',
                  'compileExpr', 'compile', 'scheme', 'explainTable', 'contextStep', 'dispatchDecision', 'runOptionsUpdate', 'bindings']:
         out += chunks.get(name, ['-- UNTRANSLATED %s: not attempted' % name])
     return out, report
@@ -2042,6 +2084,7 @@ def translate_tables(repo):
 
 TABLES_HEADER = """import FindVerif.Model.Compile
 import FindVerif.Model.Parse
+import FindVerif.Gen.Support
 /-
   GENERATED by tools/rs2lean.py from %s/src/{ast.rs, permission_flags.rs, find_parser/permission.rs,
   scheme/target_scheme.rs} -- do not edit.  The constant tables of the crate: one Lean match arm per
